@@ -124,6 +124,7 @@ def report_dynamic(r, hits, whits, ncases, ran=()):
                                        "input": case, "expected": "exit 0 with all three files that compile, or exit != 0 with a diagnostic; never a panic trace or a hang",
                                        "replay_case_line": "cli " + json.dumps(case) if case else None}, True)
     bad_w = [w for w in whits if not (kf.get(w) and kf[w]["kind"] == "finding")]
+    r.cov["witnesses"] = {"run": sorted(ran), "failing": sorted(whits), "active_findings": sorted(w for w in whits if w not in bad_w)}
     r.obligations.append(("witnesses (real CLI): every committed C12 witness of a repaired defect behaves", not bad_w, "failing: %s" % sorted(bad_w)))
     r.obligations.append(("oracle cli_fuzz: exit 0 => three non-empty files that compile; exit != 0 => a diagnostic; no panic trace; no timeout (support, not proof)",
                           not hits, "%d violating cases of %d" % (len(hits), ncases)))
@@ -159,7 +160,8 @@ def facts(r, family, expect_path, fields, label):
 
 def run(r):
     r.require_theorems(4)
-    r.run_witnesses()   # generic in-process replay (weak: a recovered panic counts as `rejected`); the strict replay is part of cli_fuzz
+    # The committed witnesses (corpus/C12/*.json) are replayed by family cli_fuzz through the REAL command line, before the
+    # generated cases (the generic in-process `witness` family would count a recovered panic as `rejected`, so it is not used here).
     diff, sites, exp = facts(r, FACT_FAMILY, EXPECT, ("auto",), " and loop-guard shape")
     # every `proved:` status must name a kernel-checked theorem with allowed axioms
     audited = (r.lean or {}).get("axioms", {})
@@ -182,8 +184,8 @@ def run(r):
                           "(well-escaped: same value; ill-escaped: both panic)", not mm, "%d mismatches of %d" % (len(mm), len(ft["cases"]))))
     # dynamic support
     # quick: every fixed adversarial file + every Go package variant once (≈ 190 runs, two thirds of which stop in the
-    # front end within milliseconds) + 40 random mutations; thorough: + 4000 random cases and the two budgeted witnesses K6/K7
-    n = 40 if r.tier == "quick" else 4000
+    # front end within milliseconds) + 25 random mutations; thorough: + 4000 random cases and the two budgeted witnesses K6/K7
+    n = 25 if r.tier == "quick" else 4000
     res, hits, whits = dynamic(r, n)
     found = report_dynamic(r, hits, whits, len(res["cases"]), res["witnesses_run"])
     if mm and not found:
